@@ -309,30 +309,30 @@ theorem layout_le :
         [v.extractLsb' 0 8, v.extractLsb' 8 8, v.extractLsb' 16 8, v.extractLsb' 24 8]) := by
   refine ⟨?_, ?_, ?_, ?_⟩ <;> intro v <;>
     simp only [encU16le, encS16le, encU32le, encS32le, b8, List.map_cons, List.map_nil, List.cons.injEq, and_true] <;>
-    refine ⟨?_, ?_⟩ <;> (try refine ⟨?_, ?_, ?_⟩) <;> bv_decide
+    refine ⟨?_, ?_⟩ <;> (try refine ⟨?_, ?_, ?_⟩) <;> bv_decide (config := { timeout := 300 })
 
 /-- **layout_be**: the big-endian packer stores the most significant byte first -/
 theorem layout_be (v : BitVec 16) : (encU16be v).map UInt8.toBitVec = [v.extractLsb' 8 8, v.extractLsb' 0 8] := by
   simp only [encU16be, b8, List.map_cons, List.map_nil, List.cons.injEq, and_true]
-  refine ⟨?_, ?_⟩ <;> bv_decide
+  refine ⟨?_, ?_⟩ <;> bv_decide (config := { timeout := 300 })
 
 /-- decoding the bytes a little-endian packer stores gives back the value: all 2^16 values -/
 theorem dec16_encU16le (v : BitVec 16) : ∃ a b, encU16le v = [a, b] ∧ dec16 a b = v := by
   refine ⟨_, _, rfl, ?_⟩
-  simp only [dec16, b8]; bv_decide
+  simp only [dec16, b8]; bv_decide (config := { timeout := 300 })
 
 theorem dec16_encS16le (v : BitVec 16) : ∃ a b, encS16le v = [a, b] ∧ dec16 a b = v := by
   refine ⟨_, _, rfl, ?_⟩
-  simp only [dec16, b8]; bv_decide
+  simp only [dec16, b8]; bv_decide (config := { timeout := 300 })
 
 /-- all 2^32 values -/
 theorem dec32_encU32le (v : BitVec 32) : ∃ a b c d, encU32le v = [a, b, c, d] ∧ dec32 a b c d = v := by
   refine ⟨_, _, _, _, rfl, ?_⟩
-  simp only [dec32, b8]; bv_decide
+  simp only [dec32, b8]; bv_decide (config := { timeout := 300 })
 
 theorem dec32_encS32le (v : BitVec 32) : ∃ a b c d, encS32le v = [a, b, c, d] ∧ dec32 a b c d = v := by
   refine ⟨_, _, _, _, rfl, ?_⟩
-  simp only [dec32, b8]; bv_decide
+  simp only [dec32, b8]; bv_decide (config := { timeout := 300 })
 
 /-! ### back to back, round trip -/
 
@@ -377,7 +377,7 @@ theorem POp.size_readBack (q : POp) : q.readBack.size = q.stored.length := by
 theorem encU16be_eq (v : BitVec 16) :
     encU16be v = [UInt8.ofBitVec (v.extractLsb' 8 8), UInt8.ofBitVec (v.extractLsb' 0 8)] := by
   simp only [encU16be, b8, List.cons.injEq, and_true]
-  refine ⟨?_, ?_⟩ <;> congr 1 <;> bv_decide
+  refine ⟨?_, ?_⟩ <;> congr 1 <;> bv_decide (config := { timeout := 300 })
 
 /-- per item: decoding the stored bytes with the mirror unpacker gives the original value -/
 theorem POp.unpacked_stored (q : POp) : unpacked q.readBack q.stored = some q.expect := by
